@@ -1002,6 +1002,9 @@ pub struct Overrides {
     pub both_carriers_query_alg: Option<String>,
     /// present the *correct* signature in another letter case: 0 = all upper case, 1 = one letter in upper case
     pub signature_case: Option<u8>,
+    /// present something derived from the correct signature: 0-2 = its first 63 / 32 / 8 digits, 3 = with a digit appended,
+    /// 4 / 5 = last / first digit changed, 6 = with "0x" in front, 7 = with a non-ASCII character appended, 8 = quoted
+    pub signature_near: Option<u8>,
     /// raw bytes inserted right after the leading '/' of the path, appended to the path, appended to the query
     pub path_prefix_raw: Vec<u8>,
     pub path_suffix_raw: Vec<u8>,
@@ -1129,8 +1132,29 @@ pub fn render(l: &Logical, cfg: &Cfg, sp: &mut Speller, ov: &Overrides) -> (Wire
     } else {
         rm::signature(&key, &sts)
     };
+    let near = |k: u8| -> String {
+        let flip = |c: u8| -> char {
+            if c == b'0' {
+                '1'
+            } else {
+                '0'
+            }
+        };
+        match k {
+            0 => sig[..63].to_string(),
+            1 => sig[..32].to_string(),
+            2 => sig[..8].to_string(),
+            3 => format!("{}0", sig),
+            4 => format!("{}{}", &sig[..63], flip(sig.as_bytes()[63])),
+            5 => format!("{}{}", flip(sig.as_bytes()[0]), &sig[1..]),
+            6 => format!("0x{}", sig),
+            7 => format!("{}\u{e9}", sig),
+            _ => format!("\"{}\"", sig),
+        }
+    };
     let presented = match (ov.signature.clone(), ov.signature_case) {
         (Some(s), _) => s,
+        (None, _) if ov.signature_near.is_some() => near(ov.signature_near.unwrap()),
         (None, Some(0)) => sig.to_ascii_uppercase(),
         (None, Some(_)) => {
             let mut b = sig.clone().into_bytes();
